@@ -244,6 +244,9 @@ pub fn op_props(op: &Value, pre_full: bool, exp_ret: &Value) -> String {
         }
         "insert_unchecked" => p.extend(["C18", "C12"]),
         "get" | "get_mut" | "contains_key" | "index" | "index_mut" | "remove" | "retain" | "clear" | "drop" => p.push("C01"),
+        "default" | "with_capacity" => p.extend(["C01", "C03"]),
+        "s_default" => p.extend(["C07", "C03"]),
+        "iter_defaults" => p.push("C09"),
         "get_key_value" | "remove_entry" => p.push("C01"),
         "drain" => p.extend(["C01", "C10", "C12"]),
         "cursor" => {
